@@ -6,5 +6,4 @@ CONSTANTS
 INVARIANT RetryBound
 INVARIANT PoweredOnlyWhenTuned
 INVARIANT QueueIsScriptSuffix
-INVARIANT PoweredMeansServerRuns
 CHECK_DEADLOCK FALSE
